@@ -9,6 +9,7 @@ package main
 // No expectation is computed here.
 
 import (
+	"bytes"
 	"context"
 	"encoding/json"
 	"fmt"
@@ -16,6 +17,7 @@ import (
 	"os"
 	"path/filepath"
 	"sort"
+	"sync"
 	"time"
 
 	. "verif/harness/hlib"
@@ -70,21 +72,22 @@ type rtCase struct {
 }
 
 type rtObs struct {
-	I          int        `json:"i"`
-	Format     string     `json:"format"`
-	File       string     `json:"file"`
-	RequiredBy []string   `json:"required_by"`
-	Ref        []*purlRec `json:"ref"`      // package URL of every inventory package (null = none)
-	RefStr     []string   `json:"ref_str"`  // its String()
-	RefName    []string   `json:"ref_name"` // Package.Name
-	Panic      string     `json:"panic,omitempty"`
-	WriteErr   string     `json:"write_err,omitempty"`
-	ScanStatus string     `json:"scan_status"`
-	PluginFail []string   `json:"plugin_fail,omitempty"`
-	Reimported []*purlRec `json:"reimported"`
-	ReimpStr   []string   `json:"reimp_str"`
-	NoPurlBack int        `json:"reimported_without_purl"`
-	Inv        any        `json:"inv,omitempty"`
+	I          int          `json:"i"`
+	Format     string       `json:"format"`
+	File       string       `json:"file"`
+	RequiredBy []string     `json:"required_by"`
+	Ref        []*purlRec   `json:"ref"`      // package URL of every inventory package (null = none)
+	RefStr     []string     `json:"ref_str"`  // its String()
+	RefName    []string     `json:"ref_name"` // Package.Name
+	Panic      string       `json:"panic,omitempty"`
+	WriteErr   string       `json:"write_err,omitempty"`
+	ScanStatus string       `json:"scan_status"`
+	PluginFail []string     `json:"plugin_fail,omitempty"`
+	Reimported []*purlRec   `json:"reimported"`
+	ReimpStr   []string     `json:"reimp_str"`
+	NoPurlBack int          `json:"reimported_without_purl"`
+	Inv        any          `json:"inv,omitempty"`
+	Patched    *patchedScan `json:"patched,omitempty"`
 }
 
 func buildPkg(c rtPkg) *extractor.Package {
@@ -145,6 +148,9 @@ func roundTrip(dir, format, via string, pkgs []*extractor.Package) rtObs {
 		o.WriteErr = err.Error()
 		return o
 	}
+	for _, other := range sbomFileName { // the directory is reused: nothing of an earlier case may remain
+		_ = os.Remove(filepath.Join(dir, other))
+	}
 	path := filepath.Join(dir, name)
 	now := time.Now()
 	res := &scalibr.ScanResult{Version: "verif", StartTime: now, EndTime: now,
@@ -172,6 +178,70 @@ func roundTrip(dir, format, via string, pkgs []*extractor.Package) rtObs {
 	if o.WriteErr != "" {
 		return o
 	}
+	o.ScanStatus, o.PluginFail, o.Reimported, o.ReimpStr, o.NoPurlBack, o.Panic = scanSBOMDir(dir)
+	if format == "spdx23-tag-value" && o.Panic == "" {
+		// Known finding C15-spdx-tagvalue-supplier makes every tag-value document unreadable. To keep judging
+		// the rest of the tag-value path, the supplier line alone is rewritten to the form the reader accepts
+		// and the file is scanned again (reported separately; the raw scan above stays the primary observation).
+		if data, err := os.ReadFile(path); err == nil {
+			fixed := bytes.ReplaceAll(data, []byte("PackageSupplier: NOASSERTION: NOASSERTION\n"), []byte("PackageSupplier: NOASSERTION\n"))
+			dir2 := dir + "-supplier"
+			if err := writeFileAt(dir2, name, fixed, 0o644); err == nil {
+				p := &patchedScan{SupplierLines: bytes.Count(data, []byte("PackageSupplier: NOASSERTION: NOASSERTION\n"))}
+				p.ScanStatus, p.PluginFail, p.Reimported, p.ReimpStr, p.NoPurlBack, p.Panic = scanSBOMDir(dir2)
+				o.Patched = p
+				_ = os.Remove(filepath.Join(dir2, name))
+			}
+		}
+	}
+	_ = os.Remove(path)
+	return o
+}
+
+// dirPool hands out scratch directories that are reused (one file at a time lives in each), so that the
+// workers do not contend on creating and removing directories under one parent.
+type dirPool struct {
+	base string
+	free chan string
+	mu   sync.Mutex
+	n    int
+}
+
+func newDirPool(base string) *dirPool { return &dirPool{base: base, free: make(chan string, 1024)} }
+
+func (p *dirPool) get() string {
+	select {
+	case d := <-p.free:
+		return d
+	default:
+	}
+	p.mu.Lock()
+	p.n++
+	d := filepath.Join(p.base, fmt.Sprint(p.n))
+	p.mu.Unlock()
+	return d
+}
+
+func (p *dirPool) put(d string) {
+	select {
+	case p.free <- d:
+	default:
+	}
+}
+
+type patchedScan struct {
+	SupplierLines int        `json:"supplier_lines"`
+	ScanStatus    string     `json:"scan_status"`
+	PluginFail    []string   `json:"plugin_fail,omitempty"`
+	Reimported    []*purlRec `json:"reimported"`
+	ReimpStr      []string   `json:"reimp_str"`
+	NoPurlBack    int        `json:"reimported_without_purl"`
+	Panic         string     `json:"panic,omitempty"`
+}
+
+// scanSBOMDir scans dir with the REAL scalibr.New().Scan, only the two SBOM extractors enabled.
+func scanSBOMDir(dir string) (status string, pluginFail []string, back []*purlRec, backStr []string, noPurl int, panicked string) {
+	back, backStr = []*purlRec{}, []string{}
 	var sr *scalibr.ScanResult
 	if pn := Safely(func() {
 		ctx, cancel := context.WithTimeout(context.Background(), 60*time.Second)
@@ -181,19 +251,18 @@ func roundTrip(dir, format, via string, pkgs []*extractor.Package) rtObs {
 			ScanRoots:            scalibrfs.RealFSScanRoots(dir),
 		})
 	}); pn != "" {
-		o.Panic = "scan: " + pn
-		return o
+		return "", nil, back, backStr, 0, "scan: " + pn
 	}
 	if sr.Status != nil {
 		if sr.Status.Status == plugin.ScanStatusSucceeded {
-			o.ScanStatus = "succeeded"
+			status = "succeeded"
 		} else {
-			o.ScanStatus = "failed: " + sr.Status.FailureReason
+			status = "failed: " + sr.Status.FailureReason
 		}
 	}
 	for _, ps := range sr.PluginStatus {
 		if ps.Status != nil && ps.Status.Status != plugin.ScanStatusSucceeded {
-			o.PluginFail = append(o.PluginFail, ps.Name+": "+ps.Status.FailureReason)
+			pluginFail = append(pluginFail, ps.Name+": "+ps.Status.FailureReason)
 		}
 	}
 	for _, p := range sr.Inventory.Packages {
@@ -206,25 +275,23 @@ func roundTrip(dir, format, via string, pkgs []*extractor.Package) rtObs {
 				s = pu.String()
 			}
 		}); pn != "" {
-			o.Panic = "reimported ToPURL: " + pn
-			return o
+			return status, pluginFail, back, backStr, noPurl, "reimported ToPURL: " + pn
 		}
 		if pr == nil {
-			o.NoPurlBack++
+			noPurl++
 			continue
 		}
-		o.Reimported = append(o.Reimported, pr)
-		o.ReimpStr = append(o.ReimpStr, s)
+		back = append(back, pr)
+		backStr = append(backStr, s)
 	}
-	_ = os.RemoveAll(dir)
-	return o
+	return status, pluginFail, back, backStr, noPurl, ""
 }
 
 func init() {
 	Register("sbomrt", func(e *Env) error {
 		scalibrlog.SetLogger(quiet{})
 		via := e.Args["via"]
-		base := filepath.Join(e.Tmp, "rt")
+		pool := newDirPool(filepath.Join(e.Tmp, "rt"))
 		return MapCases(e, func(idx int, raw []byte) (any, error) {
 			var c rtCase
 			if err := json.Unmarshal(raw, &c); err != nil {
@@ -234,7 +301,9 @@ func init() {
 			for _, cp := range c.Pkgs {
 				pkgs = append(pkgs, buildPkg(cp))
 			}
-			o := roundTrip(filepath.Join(base, fmt.Sprint(idx)), c.Format, via, pkgs)
+			d := pool.get()
+			o := roundTrip(d, c.Format, via, pkgs)
+			pool.put(d)
 			o.I = idx
 			return o, nil
 		})
@@ -299,7 +368,7 @@ func init() {
 		}
 		f.Close()
 		e.In = in
-		base := filepath.Join(e.Tmp, "rtn")
+		pool := newDirPool(filepath.Join(e.Tmp, "rtn"))
 		return MapCases(e, func(idx int, raw []byte) (any, error) {
 			var c struct {
 				Inv    int    `json:"inv"`
@@ -308,7 +377,9 @@ func init() {
 			if err := json.Unmarshal(raw, &c); err != nil {
 				return nil, err
 			}
-			o := roundTrip(filepath.Join(base, fmt.Sprint(idx)), c.Format, e.Args["via"], invs[c.Inv].pkgs)
+			d := pool.get()
+			o := roundTrip(d, c.Format, e.Args["via"], invs[c.Inv].pkgs)
+			pool.put(d)
 			o.I = idx
 			exts := []string{}
 			for _, p := range invs[c.Inv].pkgs {
